@@ -92,7 +92,7 @@ Fixpoint parse_braced_body (s : str) (count : nat) (acc : str) : pres str :=
       if c =? c_lbrace then parse_braced_body r (S count) (c :: acc)
       else if c =? c_rbrace then
         match count with
-        | O => POk (rev acc) r
+        | O => POk (rev_fast acc) r
         | S k => parse_braced_body r k (c :: acc)
         end
       else if c =? c_bslash then
